@@ -49,6 +49,8 @@ func runC01(w *World) *Result {
 	}
 	r.Rule("R-C01-numcmp", "Bash test commands order numbers with -lt/-le/-gt/-ge, never with < or > (text order)", 3)
 	BashTestOrderRule(w, bash, r, "R-C01-numcmp", func(l *Line) bool { return l.Em.Helper == "" })
+	r.Rule("R-C01-int", "integer literals keep their 64-bit value: parsed by an integer parser in base ten, never through a floating-point type", 1)
+	IntLiteralRule(w, r, "R-C01-int")
 	r.Rule("R-C01-stderr", "a converter-owned variable that some template sets to the empty text is never an unquoted operand of a numeric test (the test command would complain on stderr)", 1)
 	BashEmptyOperandRule(w, bash, r, "R-C01-stderr")
 	ExitRule(w, bash, batch, r, "R-C01-exit")
@@ -197,6 +199,8 @@ func runC02(w *World) *Result {
 		}
 		return false
 	})
+	r.Rule("R-C02-reentrant", "the arguments of a call are collected in a list of the activation that evaluates them, not in the shared driver object (a call nested in an argument would overwrite the outer call's arguments)", 3)
+	ReentrantRule(w, r, "R-C02-reentrant")
 	r.Rule("R-C02-driver", "calls and returns: every argument / returned value is evaluated once, as a used value, in order, before the converter call", 2)
 	ProtoRule(w, r, "R-C02-driver", func(n string) bool {
 		switch n {
